@@ -1364,6 +1364,22 @@ func c05PassCut2(e *c05Env, sp c05PassSpec) (*cut, map[ssa.Value]bool) {
 	if sp.Edges != nil {
 		ct.Edges(sp.Edges(e)...)
 	}
+	// a step table runs all its steps before the loop is left normally: when one of the steps passes, so does that exit
+	if e.depth() < 3 {
+		for _, t := range c05StepTables(e.Fn) {
+			for _, s := range t.Steps {
+				g := c05StepFn(s)
+				if g == nil || g == e.Fn {
+					continue
+				}
+				child := &c05Env{Fn: g, Parent: e}
+				if (sp.Success && c05SuccessPasses(child, sp)) || (!sp.Success && c05AlwaysPasses(child, sp)) {
+					ct.Edges(t.Done...)
+					break
+				}
+			}
+		}
+	}
 	return ct, direct
 }
 
@@ -2037,6 +2053,10 @@ func c05ReachF(fromB *ssa.BasicBlock, fromIdx int, fromPred *ssa.BasicBlock, to 
 // take their nil edge (`switch { case err == nil && …: case err == nil: case
 // errors.Is(err, X): default: return err }`).
 func c05ErrFlow(call ssa.CallInstruction, o ErrFlowOpts) ErrFlowResult {
+	return c05ErrFlowD(call, o, 0)
+}
+
+func c05ErrFlowD(call ssa.CallInstruction, o ErrFlowOpts, depth int) ErrFlowResult {
 	r := ErrFlow(call, o)
 	if r.OK {
 		return r
@@ -2048,6 +2068,51 @@ func c05ErrFlow(call ssa.CallInstruction, o ErrFlowOpts) ErrFlowResult {
 		return r
 	}
 	aliases := Aliases(e)
+	// the error is handed to an in-module filter / wrapper `h(err) error` that returns nil only for a nil or tolerated
+	// error and otherwise the error itself (or an error built from it): the flow continues with h's result
+	if depth < 2 {
+		for _, hc := range Calls(fn, func(string) bool { return true }) {
+			h := StaticCallee(hc)
+			if h == nil || !inModule(h) || len(h.Blocks) == 0 || hc == call || ErrResultIndex(h.Signature) < 0 || h.Signature.Results().Len() != 1 {
+				continue
+			}
+			if _, plain := hc.(*ssa.Call); !plain {
+				continue
+			}
+			for i, a := range hc.Common().Args {
+				if !(aliases[a] || aliases[strip(a)]) || i >= len(h.Params) {
+					continue
+				}
+				hal := Aliases(h.Params[i])
+				nilE, _, _ := NilTests(h, hal)
+				ct := newCut().Edges(nilE...)
+				tolC := c05TolConds(h, hal, o.Tolerated, 0)
+				for _, ifi := range Ifs(h) {
+					cond, t, f := ifEdges(ifi)
+					if tolC[c05CondKey{cond, true}] {
+						ct.Edges(t)
+					}
+					if tolC[c05CondKey{cond, false}] {
+						ct.Edges(f)
+					}
+				}
+				filters := c05DeferKeepsError(h) == ""
+				for _, at := range RetAtoms(h, 0) {
+					if hal[at.Val] || hal[strip(at.Val)] || derivesFromAny(at.Val, hal, 0) || ErrNilStatus(at.Val, 0) == NonNil {
+						continue
+					}
+					if !c05AtomMustPass(at, ct) {
+						filters = false
+					}
+				}
+				if filters {
+					if rr := c05ErrFlowD(hc, ErrFlowOpts{}, depth+1); rr.OK {
+						return ErrFlowResult{OK: true, How: "handed to " + FnName(h) + ", which returns nil only for a nil or tolerated error; its result " + rr.How}
+					}
+				}
+			}
+		}
+	}
 	nilE, nonNilE, ifs := NilTests(fn, aliases)
 	if len(ifs) == 0 {
 		return r
@@ -3387,4 +3452,199 @@ func c05GlobalErrorTable(v ssa.Value) ([]string, bool) {
 		return nil, false
 	}
 	return names, true
+}
+
+// ---------------------------------------------------------------- step tables
+
+// c05StepTable is the fallible-sequence idiom
+//
+//	for _, step := range []func() error{a, b, c} { if err := step(); err != nil { return err } }
+//
+// (elements may also be structs with one func field that is called): the
+// straight-line sequence a; b; c with an early return on the first error.
+type c05StepTable struct {
+	Fn    *ssa.Function
+	It    *c05Iter
+	Steps []ssa.Value // the element functions in order (MakeClosure / Function values; for struct elements the called field)
+	Call  *ssa.Call   // the dynamic call of the current step in the loop body
+	Done  []Edge      // edges leaving the loop once every step has returned nil
+}
+
+var c05StepTablesCache = map[*ssa.Function][]*c05StepTable{}
+
+func c05StepTables(fn *ssa.Function) []*c05StepTable {
+	if t, ok := c05StepTablesCache[fn]; ok {
+		return t
+	}
+	var out []*c05StepTable
+	e := c05Root(fn)
+	for _, it := range c05ItersIn(e) {
+		if it.Loop == nil || it.slice == nil || it.viaRole != "" {
+			continue
+		}
+		sl, ok := strip(it.slice).(*ssa.Slice)
+		if !ok {
+			continue
+		}
+		arr, ok := sl.X.(*ssa.Alloc)
+		if !ok {
+			continue
+		}
+		// the dynamic call of the current element (or of a func field of it) in the body
+		var dyn *ssa.Call
+		field := -1
+		n := 0
+		for b := range it.Loop.Blocks {
+			for _, in := range b.Instrs {
+				call, isCall := in.(*ssa.Call)
+				if !isCall || call.Call.IsInvoke() || StaticCallee(call) != nil {
+					continue
+				}
+				if _, isB := call.Call.Value.(*ssa.Builtin); isB {
+					continue
+				}
+				v := call.Call.Value
+				f := -1
+				if fl, isF := v.(*ssa.Field); isF {
+					v, f = fl.X, fl.Field
+				} else if ld, isL := v.(*ssa.UnOp); isL && ld.Op == token.MUL {
+					if fa, isFA := ld.X.(*ssa.FieldAddr); isFA {
+						if ia, isIA := fa.X.(*ssa.IndexAddr); isIA && it.idx[ia.Index] {
+							n++
+							dyn, field = call, fa.Field
+							continue
+						}
+						// the element copied into the loop variable first (`for _, step := range steps { step.run() }`)
+						if cell, isA := fa.X.(*ssa.Alloc); isA {
+							if sv := c05SingleStoredValue(cell); sv != nil && it.IsElem(sv, e, "val") {
+								n++
+								dyn, field = call, fa.Field
+								continue
+							}
+						}
+					}
+				}
+				if it.IsElem(v, e, "val") {
+					n++
+					dyn, field = call, f
+				}
+			}
+		}
+		if n != 1 || dyn == nil || ErrOf(dyn) == nil {
+			continue
+		}
+		// a failing step ends the function with a non-nil error; a nil result goes on with the next element
+		al := Aliases(ErrOf(dyn))
+		_, nonNil, ifs := NilTests(fn, al)
+		if len(ifs) == 0 {
+			continue
+		}
+		okFail := true
+		for _, ne := range nonNil {
+			if c05ReachF(ne.To, 0, ne.From, it.Loop.Header.Instrs[0], nil, c05EdgeFacts(ne), nil) {
+				okFail = false // a failed step does not stop the sequence
+			}
+		}
+		if !okFail {
+			continue
+		}
+		// elements in index order
+		steps := map[int64]ssa.Value{}
+		max := int64(-1)
+		for _, ref := range *arr.Referrers() {
+			ia, isIA := ref.(*ssa.IndexAddr)
+			if !isIA {
+				continue
+			}
+			k, isK := constInt(ia.Index)
+			if !isK {
+				continue
+			}
+			for _, r2 := range *ia.Referrers() {
+				switch u := r2.(type) {
+				case *ssa.Store:
+					if u.Addr == ssa.Value(ia) && field < 0 {
+						steps[k] = u.Val
+					}
+				case *ssa.FieldAddr:
+					if u.Field == field {
+						for _, r3 := range *u.Referrers() {
+							if st, isSt := r3.(*ssa.Store); isSt && st.Addr == ssa.Value(u) {
+								steps[k] = st.Val
+							}
+						}
+					}
+				}
+			}
+			if k > max {
+				max = k
+			}
+		}
+		t := &c05StepTable{Fn: fn, It: it, Call: dyn}
+		for k := int64(0); k <= max; k++ {
+			v, ok := steps[k]
+			if !ok {
+				t = nil
+				break
+			}
+			t.Steps = append(t.Steps, strip(v))
+		}
+		if t == nil || len(t.Steps) == 0 {
+			continue
+		}
+		for _, ex := range it.Loop.Exits {
+			if ex.From == it.Loop.Header {
+				t.Done = append(t.Done, ex)
+			}
+		}
+		if len(t.Done) == 0 {
+			continue
+		}
+		out = append(out, t)
+	}
+	c05StepTablesCache[fn] = out
+	return out
+}
+
+// c05StepFn: the in-module function a step value runs (closure or plain function); nil for bound methods of other packages.
+func c05StepFn(v ssa.Value) *ssa.Function {
+	switch x := v.(type) {
+	case *ssa.MakeClosure:
+		if f := x.Fn.(*ssa.Function); inModule(f) && len(f.Blocks) > 0 && !strings.HasPrefix(f.Synthetic, "bound method wrapper") {
+			return f
+		}
+	case *ssa.Function:
+		if inModule(x) && len(x.Blocks) > 0 {
+			return x
+		}
+	}
+	return nil
+}
+
+// c05StepIndex: e.Fn is step #k of a step table of its parent function.
+func c05StepIndex(e *c05Env) (*c05StepTable, int) {
+	if e == nil || e.Parent == nil {
+		return nil, -1
+	}
+	for _, t := range c05StepTables(e.Parent.Fn) {
+		for k, s := range t.Steps {
+			if c05StepFn(s) == e.Fn {
+				return t, k
+			}
+		}
+	}
+	return nil, -1
+}
+
+// c05StepBoundMethod: step v is the method value recv.<name> (a bound method wrapper): the receiver, or nil.
+func c05StepBoundMethod(v ssa.Value, name string) ssa.Value {
+	mc, ok := v.(*ssa.MakeClosure)
+	if !ok || len(mc.Bindings) != 1 {
+		return nil
+	}
+	f := mc.Fn.(*ssa.Function)
+	if !strings.HasPrefix(f.Synthetic, "bound method wrapper") || fnFullName(f) != name {
+		return nil
+	}
+	return mc.Bindings[0]
 }
